@@ -103,7 +103,8 @@ Refill(c) == RefillFrom(c, {IF c.dual THEN ClearQ(c) ELSE [c EXCEPT !.qG = {}]},
 
 (* SearchData.GetDataItemWithMaxGlobalR: refill if empty, pop an entry with maximal key *)
 PopMaxG(c) ==
-  UNION {{<<e[1], [s EXCEPT !.qG = @ \ {e}]>> : e \in MaxE(s.qG)} : s \in (IF c.qG = {} THEN Refill(c) ELSE {c})}
+  UNION {IF s.maxlen = 0 - 1 THEN {<<NoItem, s>>} ELSE {<<e[1], [s EXCEPT !.qG = @ \ {e}]>> : e \in MaxE(s.qG)}
+         : s \in (IF c.qG = {} THEN Refill(c) ELSE {c})}
 
 (* SearchDataDualQueue: pop; while the popped key differs from the item's CURRENT characteristic: *)
 (* (refill if empty) pop again.  which = "G" or "L".                                              *)
@@ -113,11 +114,14 @@ OverflowsOnPop(c, which) == Qof(c, which) = {} /\ IsOverflow(Refill(c))
 WithQ(s, which, qu) == IF which = "G" THEN [s EXCEPT !.qG = qu] ELSE [s EXCEPT !.qL = qu]
 RECURSIVE LazyPop(_, _, _)
 LazyPop(s, which, fuel) ==
-  IF fuel = 0 \/ s.maxlen = 0 - 1 THEN {} ELSE
-  UNION {UNION {IF e[2] = Attr(s1, which, e[1])
-                THEN {<<e[1], WithQ(s1, which, Qof(s1, which) \ {e})>>}
-                ELSE LazyPop(WithQ(s1, which, Qof(s1, which) \ {e}), which, fuel - 1)
-                : e \in MaxE(Qof(s1, which))}
+  IF fuel = 0 THEN {}
+  ELSE IF s.maxlen = 0 - 1 THEN {<<NoItem, s>>}       \* a refill inside the loop overflowed: the marker is passed on (history abandoned)
+  ELSE
+  UNION {IF s1.maxlen = 0 - 1 THEN {<<NoItem, s1>>}
+         ELSE UNION {IF e[2] = Attr(s1, which, e[1])
+                     THEN {<<e[1], WithQ(s1, which, Qof(s1, which) \ {e})>>}
+                     ELSE LazyPop(WithQ(s1, which, Qof(s1, which) \ {e}), which, fuel - 1)
+                     : e \in MaxE(Qof(s1, which))}
          : s1 \in (IF Qof(s, which) = {} THEN Refill(s) ELSE {s})}
 PopMaxDual(c, which) == LazyPop(c, which, 2 * (Cardinality(Qof(c, which)) + Len(c.x)) + 2)
 
